@@ -115,7 +115,9 @@ def rule_a_b(chk, f, ev):
         raises = [n for n in reg if n.kind == 'stmt' and isinstance(n.ast, ast.Raise)]
         chk.ob('a', f.ref, 'the catch-all clause does not re-raise', not raises, loc(f, ca.ast), discr='no-reraise')
         # b: feedback
-        errs = [n for n in reg if n.kind == 'stmt' and any(r.endswith('.value') and r.startswith(ev) for r in pat.stores_attr(n.ast, 'errors', True))]
+        def _recv(n, r):
+            return pat.expand_alias(f, n, r)        # `result = event.value; result.errors = True`
+        errs = [n for n in reg if n.kind == 'stmt' and any(_recv(n, r).endswith('.value') and _recv(n, r).startswith(ev) for r in pat.stores_attr(n.ast, 'errors', True))]
         p = pat.escapes_region(g, ca, reg, lambda n: n in errs)
         chk.ob('b', f.ref, 'the catch-all clause marks the value as erroneous on every path', bool(errs) and p is None, loc(f, ca.ast),
                path=pat.path_lines(p, ca) if p else None, discr='errors-flag')
